@@ -210,3 +210,12 @@ def x_generator(rows: list, extra: list, k: int, w: int):
         buf = [*extra, *rows]
         for row in buf[-(len(rows) + k) : -k]:
             yield (row + [7] * (w - len(row)))[:w]
+
+
+def x_generator_same_list(a: int, n: int, w: int):
+    # the SAME list object yielded once per round (SolidCanvas.content / BlankCanvas.content: one `line` for every row);
+    # pyvc yields it by value and keeps it readable (seqs.YieldedRef)
+    line = [(a, [a] * w)]
+    for _ in range(n):
+        yield line
+    yield line + [(w, [])]
